@@ -625,7 +625,8 @@ Variable D : list N -> list N -> list N.
 
 Definition wrap_keys (kek dek mac : list N) : list N := kw_wrap (E kek) (dek ++ mac).
 
-(* sha_counted = false is the code as it is: raw_size and first_boot_tag_block leave the 32-byte SHA-256 out *)
+(* sha_counted = true is the code as it is; false is the builder before the repair of C04-F2 (raw_size and
+   first_boot_tag_block left the 32-byte SHA-256 out), kept for the statement rom21_old_builder_sha_refuted *)
 Definition build21_gen (sha_counted : bool) (x : sbin) : res (list N) :=
   match x_secs x with
   | [] => Err 1
@@ -662,11 +663,29 @@ Definition build21_gen (sha_counted : bool) (x : sbin) : res (list N) :=
             | Err e => Err e
             | Ok cbb =>
               let signed := hb ++ hm ++ kb ++ cbb ++ (if sha then sha256 bs else []) in
-              Ok (signed ++ x_sig x ++ bs)
+              if negb (Nat.eqb (length (x_sig x)) (x_sigsize x)) then Err 1     (* signature length <> cert_block.signature_size *)
+              else Ok (signed ++ x_sig x ++ bs)
             end
           end
         end
     end
+  end.
+
+(* the section loop of BootImageV21.parse: `while section_index < image_end`; the counter object runs on *)
+Fixpoint secs_parse (fuel : nat) (ek : list N -> list N) (mac nonce : list N) (ctr : N) (data : list N) (idx stop : nat)
+  : res (list (N * N * list pcmd)) :=
+  match fuel with
+  | O => Err 3
+  | S f =>
+      if Nat.leb stop idx then Ok []
+      else match sec_parse ek mac nonce ctr data idx with
+           | Err e => Err e
+           | Ok (uid, hcnt, ps, sz) =>
+               match secs_parse f ek mac nonce (ctr + N.of_nat (sz / 16)) data (idx + sz) stop with
+               | Err e => Err e
+               | Ok r => Ok ((uid, hcnt, ps) :: r)
+               end
+           end
   end.
 
 (* ---------------- BootImageV21.parse: sig_ok is the verdict of cert_block.verify_data on the range the parser hands
@@ -717,13 +736,16 @@ Definition parse21 (sig_ok : bool) (sigsize : nat) (kek data : list N) : res par
                  if negb (aligned16 index2) then Err 1
                  else
                    let ctr := ctr_of_nonce (ih_nonce h) + N.of_nat (index2 / 16) in
-                   match sec_parse (E dek) mac (ih_nonce h) ctr data index2 with
+                   (* image_end = image_blocks * 16; a section that starts at or beyond the end of the data fails its
+                      HMAC check, so the bound is clamped to keep the conversion to nat small *)
+                   let stop := N.to_nat (N.min (ih_image_blocks h * 16) (nlen data + 1)) in
+                   match secs_parse (S (length data)) (E dek) mac (ih_nonce h) ctr data index2 stop with
                    | Err e => Err e
-                   | Ok (uid, hcnt, ps, _) =>
+                   | Ok secs =>
                      if sha && negb (eqb_list (slice data index (index + 32)) (sha256 (skipn index2 data))) then Err 2
-                     else Ok (mkParsed (N.lor V21_FLAGS_SHA_PRESENT_BIT V21_FLAGS_ENCRYPTED_SIGNED_BIT)
+                     else Ok (mkParsed (ih_flags h)
                                        (ih_pv h) (ih_cv h) (ih_build h) (ih_ts h / 1000000 * 1000000) (ih_nonce h) dek mac
-                                       [(uid, hcnt, ps)] sigidx sigsize)
+                                       secs sigidx sigsize)
                    end
              end
       end
@@ -808,8 +830,8 @@ Definition fit16 (l : list N) : list N := fit 16 l.
 Definition sbE (key : list N) : list N -> list N := let rks := key_expansion key in fun b => fit16 (cipher_rks rks b).
 Definition sbD (key : list N) : list N -> list N := let rks := key_expansion key in fun b => fit16 (inv_cipher_rks rks b).
 
-Definition build21 : sbin -> res (list N) := build21_gen sbE false.          (* the code as it is *)
-Definition build21_fixed : sbin -> res (list N) := build21_gen sbE true.     (* SHA-256 counted in the block counts *)
+Definition build21 : sbin -> res (list N) := build21_gen sbE true.           (* the code as it is *)
+Definition build21_old : sbin -> res (list N) := build21_gen sbE false.      (* before the repair of C04-F2 *)
 Definition spsdk_parse21 := parse21 sbE sbD.
 Definition rom21_aes := rom21 sbE sbD.
 
@@ -911,12 +933,12 @@ Definition vres_list {A} (f : A -> value) (r : res (list A)) : value := vres (fu
    5 parse_command stream [bytes]            -> observations
    6 rom_cmds [bytes]                        -> ROM view of a plaintext command stream
    7 sem [cmd list]                          -> specification-side ROM view
-   8 build21_fixed [sbin]
+   8 build21_old [sbin]                      (the builder before the repair of C04-F2)
    9 ihdr_parse [bytes]  *)
 Definition run_case (fn : Z) (args : list value) : value :=
   match fn, args with
   | 1%Z, [v] => match sbin_of_value v with Some x => vres VBytes (build21 x) | None => VErr E_BADCASE end
-  | 8%Z, [v] => match sbin_of_value v with Some x => vres VBytes (build21_fixed x) | None => VErr E_BADCASE end
+  | 8%Z, [v] => match sbin_of_value v with Some x => vres VBytes (build21_old x) | None => VErr E_BADCASE end
   | 2%Z, [VInt ok; VInt sigsize; VBytes kek; VBytes data] =>
       vres vparsed (spsdk_parse21 (negb (ok =? 0)%Z) (Z.to_nat sigsize) kek data)
   | 3%Z, [VInt sigsize; VBytes kek; VBytes data] => vopt vrom (rom21_aes (Z.to_nat sigsize) kek data)
